@@ -2,7 +2,7 @@
    [emit extra d urrs rs] is the emission loop of all three carriers: Session Modification Response
    (emit 0 true), Session Deletion Response (emit USAR_TRIG_TERMR true), Session Report Request (emit 0 false). *)
 From Coq Require Import String List NArith ZArith Bool.
-From GoUpf Require Import Bytes FlagsGen ConstsGen HandlerGen Pfcp PfcpBase PfcpSess PfcpClose PfcpTable PfcpDelete
+From GoUpf Require Import UrrSeqGen UrrSeqShape Bytes FlagsGen ConstsGen HandlerGen Pfcp PfcpBase PfcpSess PfcpClose PfcpTable PfcpDelete
   PfcpStep PfcpProps PfcpCat PfcpUsage PfcpQueue.
 Import ListNotations.
 Local Open Scope N_scope.
@@ -147,6 +147,12 @@ Definition C11_history : list event :=
    EvRecv 0 3 (MMod 1 IeAbsent (mkOps [] [] [] [] [] [] [] [] [] [] [] [] [] [] [] [Some 7]))
      (mkEnv [] [(DQuery, 7, [C11_rp 7 10; C11_rp 7 20])]);
    EvReport 1 [RUsa (C11_rp 7 30); RUsa (C11_rp 9 1)] (mkEnv [] [])].
+
+(* T-gen tie: URRSeq (the one place the counter is read and advanced: post-increment of a uint32) and the only other
+   write to a SEQN field (the inheritance in CreateURR) are as the model has them *)
+Theorem C11_counter_source_shape : (urrseq_body, urr_seqn_type, urr_seqn_other_writes) = urrseq_model_shape.
+Proof. exact urrseq_shape_ok. Qed.
+Print Assumptions C11_counter_source_shape.
 
 Definition C11_seqns (os : list (list out)) : list (list (N * N)) :=
   flat_map (fun o => flat_map (fun x => match x with
